@@ -195,8 +195,10 @@ LinkClass(i) ==
             (IF Exists(i, c) THEN "link:deleted-suffix-is-real-name" ELSE "link:deleted")
      ELSE "link:plain"
 
+\* (the statement speaks of a LIVE process whose link is withheld; for a
+\* zombie it names ZombieProcess only for cmdline(): '' is accepted as well)
 LinkAllowed(i) ==
-  IF i.ph.st = "zombie" THEN {Exc("ZombieProcess")}
+  IF i.ph.st = "zombie" THEN {Exc("ZombieProcess"), Ok(<<>>)}
   ELSE IF i.ph.st = "withheld" THEN {Ok(<<>>)}
   ELSE {Ok(Clean(i, i.ph.target))}
 FLink(i) == [allowed |-> LinkAllowed(i), open |-> FALSE, cls |-> LinkClass(i), nl |-> {}]
@@ -249,12 +251,13 @@ Guess(i) == CmdParse(i.raw)[1]
 \*   - a readable link gives the cleaned target; a withheld one (live
 \*     process) the qualifying cmdline()[0] or ''; both are remembered;
 \*   - errors are never remembered;
+\*   - a zombie's link: ZombieProcess, or '' (remembered or not);
 \*   - a DENIED link is outside the statement except that the error must not
 \*     be remembered: AccessDenied, or the qualifying cmdline()[0] (remembered
 \*     or not), are all accepted.
 Step(m, ph, i) ==
   IF m.set THEN {<<Ok(m.val), m>>}
-  ELSE IF ph.st = "zombie" THEN {<<Exc("ZombieProcess"), NoMemo>>}
+  ELSE IF ph.st = "zombie" THEN {<<Exc("ZombieProcess"), NoMemo>>, <<Ok(<<>>), NoMemo>>, <<Ok(<<>>), Memo(<<>>)>>}
   ELSE IF ph.st = "denied" THEN
      (IF GuessOK(i) THEN {<<Ok(Guess(i)), NoMemo>>, <<Ok(Guess(i)), Memo(Guess(i))>>,
                           <<Exc("AccessDenied"), NoMemo>>}
